@@ -400,8 +400,7 @@ Definition check_strict (c : bytes * option bytes) : bool :=
 (* every length and count fits the field it is written to; property values and
    channel values have the size of their type; string data of one channel in
    one segment stays below 4 GiB (its offsets are u32) *)
-Definition wf_obj (o : wobj) : bool :=
-  is_u32 (blen (obj_path o)) && len_u32 (obj_props o) && forallb wf_prop (obj_props o) &&
+Definition wf_chan_part (o : wobj) : bool :=
   match o with
   | WChan g _ dt vals _ =>
     chan_type_ok dt vals && is_u32 (blen (group_path g)) &&
@@ -409,6 +408,10 @@ Definition wf_obj (o : wobj) : bool :=
     (if dt =? T_STRING then is_u32 (string_total vals) else true)
   | _ => true
   end.
+
+Definition wf_obj (o : wobj) : bool :=
+  is_u32 (blen (obj_path o)) && len_u32 (obj_props o) && forallb wf_prop (obj_props o) &&
+  wf_chan_part o.
 
 (* the object count and the two lead-in offsets fit their fields *)
 Definition seg_sizes_ok (s : segsyn) : bool :=
